@@ -596,11 +596,28 @@ def scan():
     def calls_named(st, nm):
         return any(isinstance(c, ast.Call) and ((isinstance(c.func, ast.Name) and c.func.id == nm) or (isinstance(c.func, ast.Attribute) and c.func.attr == nm)) for c in ast.walk(st))
 
-    def split_at(key, callee, forbidden_before=()):
+    def helper_holding(key, st, callee, depth=0):
+        """a module-level function of the same module, called by name in statement `st`, whose body (or, to depth 3, the body
+        of such a helper of its own) calls `callee`"""
+        mod = key.rsplit(".", 1)[0]
+        for c in ast.walk(st):
+            if isinstance(c, ast.Call) and isinstance(c.func, ast.Name):
+                hk = f"{mod}.{c.func.id}"
+                if hk in funcs and hk != key and funcs[hk].cls is None and isinstance(funcs[hk].node, (ast.FunctionDef, ast.AsyncFunctionDef)):
+                    body = funcs[hk].node.body
+                    if any(calls_named(x, callee) for x in body) or (depth < 3 and any(helper_holding(hk, x, callee, depth + 1) for x in body)):
+                        return hk
+        return None
+
+    def split_at(key, callee, forbidden_before=(), depth=0):
         """<key>@pre = the calls of function `key` up to and including its (unconditional, straight-line) call of `callee`,
-        <key>@post = the rest"""
+        <key>@post = the rest.  When `key` does not call `callee` itself but a helper on its straight line does (load / loads
+        sharing a private function that audits and constructs), the helper is split in the same way and <key>@pre ends with
+        the call of <helper>@pre, <key>@post starts with <helper>@post."""
         if key not in funcs:
             raise Abort(f"{key} not found")
+        if key + "@pre" in funcs:
+            return key + "@pre"
         fn = funcs[key]
         flat = []
 
@@ -614,7 +631,29 @@ def scan():
         flatten(fn.node.body)
         idx = [i for i, st in enumerate(flat) if calls_named(st, callee)]
         if not idx:
-            raise Abort(f"{key}: no call of {callee} found -- the split point cannot be located")
+            via = [(i, helper_holding(key, st, callee)) for i, st in enumerate(flat)]
+            via = [(i, h) for i, h in via if h]
+            if not via or depth > 3:
+                raise Abort(f"{key}: no call of {callee} found -- the split point cannot be located")
+            cut, hk = via[0]
+            if isinstance(flat[cut], (ast.If, ast.For, ast.While, ast.Try)):
+                raise Abort(f"{key}: {hk} (which calls {callee}) is called under a condition / in a loop")
+            for i, st in enumerate(flat[:cut]):
+                for bad in forbidden_before:
+                    if calls_named(st, bad):
+                        raise Abort(f"{key}: {bad}() is called before {callee} (statement {i})")
+            hpre = split_at(hk, callee, forbidden_before, depth + 1)
+            pre = Func(key + "@pre", fn.node, fn.mod, None)
+            post = Func(key + "@post", fn.node, fn.mod, None)
+            analyse(pre, flat[:cut + 1], pre.calls, pre.effects)
+            analyse(post, flat[cut + 1:], post.calls, post.effects)
+            if hk not in pre.calls:
+                raise Abort(f"{key}: the call of {hk} was not resolved by the analysis")
+            pre.calls.discard(hk)
+            pre.calls.add(hpre)
+            post.calls.add(hk + "@post")
+            funcs[pre.key], funcs[post.key] = pre, post
+            return pre.key
         cut = idx[0]
         if isinstance(flat[cut], (ast.If, ast.For, ast.While, ast.Try)):
             raise Abort(f"{key}: {callee} is called under a condition / in a loop")
